@@ -40,6 +40,10 @@ class C13(Check):
             "returned, after a refused second start) and a restart, fake world and real sockets; what remains at the "
             "moment every effective Shutdown call returns and when a life is over (listener / PacketConn / accepted "
             "connections closed; real sockets probed with SetDeadline); "
+            "handlers that Hijack() their TCP connection (plain and TLS-style wrapped; no effect on a PacketConn "
+            "server) and whose owner goes on reading / writing / closing it before, during and after Shutdown, next "
+            "to ordinary requests, across restarts (the server must stop tracking it - hook VerifTracksConn -, never "
+            "call a net.Conn method on it again, not wait for it; label HExitHj in the LTS); "
             "every boundary-event log is checked by direct oracles and for acceptance "
             "by the LTS inside Coq; 12 Server values over real loopback UDP/TCP sockets, each living twice, with the direct oracles; goroutine "
             "count back at baseline after every scenario. A case is one event log; distinct by hash.")
@@ -52,7 +56,7 @@ class C13(Check):
         "a restart of the same Server value is modelled only once the previous life is over (serve call and every "
         "Shutdown / start call returned: epoch_over, restart, reachable_r); a start while the previous serve call "
         "is still draining after a context-expired ShutdownContext is outside the LTS and covered by direct oracles "
-        "only (known finding C13/restart-while-draining/connection-outlives-shutdown); Hijack, MaxTCPQueries and "
+        "only (known finding C13/restart-while-draining/connection-outlives-shutdown); MaxTCPQueries and "
         "handler-initiated Close are outside the LTS; a start that fails in serveUDP before its loop is modelled "
         "(SFailStart) only while no Shutdown call has slipped in between (docs/C13.md, residual corner)",
         "liveness is proved as progress (some server step is enabled while Shutdown waits), not as termination "
